@@ -64,6 +64,10 @@ def register_units(UNITS, gen):
             return dotted(e.value) + "." + e.attr
         raise U("callee / constant is not a dotted name: " + ast.dump(e)[:80])
 
+    def is_config(e):
+        """the expression is the name `config` — the one configuration object, not something derived from it"""
+        return isinstance(e, ast.Name) and e.id == CONFIG
+
     def const_str(e, what):
         if isinstance(e, ast.Constant) and isinstance(e.value, str):
             return e.value
@@ -151,6 +155,8 @@ def register_units(UNITS, gen):
                 # server_class(config, address, handler, context=context)
                 if len(e.args) != 3 or [k.arg for k in e.keywords] != ["context"]:
                     raise U("server class constructed with unexpected arguments")
+                if not is_config(e.args[0]):
+                    raise U("the server is not constructed over the configuration object itself")
                 return "(ELocal %s %s)" % (q("server_class"), lst([self.expr(a) for a in e.args] + [self.expr(e.keywords[0].value)]))
             if name.split(".")[0] == CONFIG:
                 if CONFIG not in self.locals:
@@ -175,10 +181,14 @@ def register_units(UNITS, gen):
                 bound = {}
                 for p, a in zip(params, e.args):
                     bound[p] = self.expr(a)
+                    if p == CONFIG and not is_config(a):
+                        raise U(f.id + "() is not given the configuration object itself")
                 for k in e.keywords:
                     if k.arg not in params or k.arg in bound:
                         raise U("bad keyword argument for " + f.id)
                     bound[k.arg] = self.expr(k.value)
+                    if k.arg == CONFIG and not is_config(k.value):
+                        raise U(f.id + "() is not given the configuration object itself")
                 args = []
                 for p, d in zip(params, defaults):
                     if p in bound:
@@ -308,6 +318,10 @@ def register_units(UNITS, gen):
                         and isinstance(s.targets[0].value, ast.Name) and s.targets[0].value.id == "self":
                     if s.targets[0].attr in ("config", "socket") and not self.init_mode:
                         raise U("self.%s rebound" % s.targets[0].attr)
+                    if s.targets[0].attr == "config" and not is_config(s.value):
+                        # the IR has ONE configuration: the server must read the very object that
+                        # init_security rewrites (root := "/" after the chroot), not a copy of it
+                        raise U("self.config is not the configuration object passed to the constructor")
                     return "(SAssign %s %s)" % (q("self." + s.targets[0].attr), self.expr(s.value))
                 if len(s.targets) == 1 and isinstance(s.targets[0], ast.Tuple) \
                         and all(isinstance(x, ast.Name) for x in s.targets[0].elts):
